@@ -162,7 +162,7 @@ func (s c04Spec) String() string {
 var (
 	c04SigVals   = []string{"right", "right-nokid", "right-otherkid", "foreign-samekid", "foreign-otherkid", "foreign-nokid", "none", "none-junksig", "hs256-pem", "hs256-der", "es256", "badsig", "sig-of-other"}
 	c04IssVals   = []string{"exact", "slash", "other", "missing", "case", "suffix", "number", "extra", "extra-slash", "extra-suffix", "extra-path"}
-	c04AudVals   = []string{"cid", "[cid]", "[other,cid]", "extra", "[other,extra]", "other", "[]", "missing", "number", "object", "[1]", "null", "cid-prefix", "CID", "extra-issuer-aud", "azp=cid", "azp=[other,cid]", "azp=other,aud=cid", "azp=number", "azp=[1,2]", "azp=object", "azp=[]", "azp=cid,aud=missing", "azp=[cid,1]", "empty-string"}
+	c04AudVals   = []string{"cid", "[cid]", "[other,cid]", "extra", "[other,extra]", "other", "[]", "missing", "number", "object", "[1]", "null", "cid-prefix", "CID", "extra-issuer-aud", "azp=cid", "azp=[other,cid]", "azp=other,aud=cid", "azp=number", "azp=[1,2]", "azp=object", "azp=[]", "azp=cid,aud=missing", "azp=[cid,1]", "empty-string", "azp=true", "azp=[other,7]"}
 	c04ExpVals   = []string{"+1h", "+5m", "-1h", "-90s", "missing", "string"}
 	c04EVVals    = []string{"absent", "true", "false", "str-false"}
 	c04ClaimVals = []string{"full", "no-email", "no-pu", "no-groups", "minimal", "unicode", "long", "groups-scalar", "groups-empty-list", "groups-empty-string", "pu-empty", "email-empty", "all-empty"}
@@ -365,6 +365,10 @@ func c04Claims(s c04Spec, cfg *c04Cfg, idp2Issuer string, base map[string]interf
 		c["aud"], c["azp"] = "cid", []interface{}{"cid", 1}
 	case "empty-string":
 		c["aud"] = ""
+	case "azp=true":
+		c["aud"], c["azp"] = "cid", true
+	case "azp=[other,7]":
+		c["aud"], c["azp"] = "cid", []interface{}{"some-other-client", 7}
 	}
 	now := time.Now()
 	switch s.Exp {
@@ -1431,7 +1435,7 @@ func (r *c04Runner) temporal(cfgs []*c04Cfg) {
 
 func TestVerif_C04(t *testing.T) {
 	run := vfNewRun(t, "C04", "exploration")
-	run.SetRule("token grid = signature (13 variants) x iss (11) x audience shape incl. custom audience claim (25) x exp (6) x email_verified (4) x claim set (13, incl. present-but-empty claims): " +
+	run.SetRule("token grid = signature (13 variants) x iss (11) x audience shape incl. custom audience claim (27) x exp (6) x email_verified (4) x claim set (13, incl. present-but-empty claims): " +
 		"every single deviation from a valid token, (thorough) every pair of deviations, plus a seeded random sample of combinations; on the callback, refresh and bearer " +
 		"(4 Authorization variants, incl. extra JWT issuer) paths; per configuration kind (discovery / JWKS URL / key file / extra audiences / audience claims / allow-unverified / custom claims / user-id-claim / no profile / extra issuer with and without discovery document / skip-nonce, cookie and Redis store). " +
 		"cell = (path, configuration, which clause of V is the ONLY failing one + its variant) or (path, configuration, valid, audience shape, claim set); multi-failure cases are trivial. " +
